@@ -48,7 +48,62 @@ def make_scratch(repo: str) -> str:
     return d
 
 
+def _global_reformat(root: str) -> None:
+    import ast as _ast
+
+    for d, _, files in os.walk(os.path.join(root, "synrbl")):
+        for f in files:
+            if f.endswith(".py"):
+                p = os.path.join(d, f)
+                with open(p) as fh:
+                    src = fh.read()
+                with open(p, "w") as fh:
+                    fh.write(_ast.unparse(_ast.parse(src)) + "\n")
+
+
+def _global_shuffle(root: str) -> None:
+    """behaviour-preserving: methods of every class in random order, a no-op
+    statement at the top of every function, everything re-serialised"""
+    import ast as _ast
+
+    rnd = random.Random(7)
+
+    class T(_ast.NodeTransformer):
+        def visit_ClassDef(self, node):
+            self.generic_visit(node)
+            funcs = [b for b in node.body if isinstance(b, (_ast.FunctionDef, _ast.AsyncFunctionDef))]
+            other = [b for b in node.body if not isinstance(b, (_ast.FunctionDef, _ast.AsyncFunctionDef))]
+            rnd.shuffle(funcs)
+            node.body = other + funcs
+            return node
+
+        def visit_FunctionDef(self, node):
+            self.generic_visit(node)
+            i = 1 if (node.body and isinstance(node.body[0], _ast.Expr) and isinstance(getattr(node.body[0], "value", None), _ast.Constant) and isinstance(node.body[0].value.value, str)) else 0
+            node.body.insert(i, _ast.Pass())
+            return node
+
+    for d, _, files in os.walk(os.path.join(root, "synrbl")):
+        for f in files:
+            if f.endswith(".py") and f != "rules.py":
+                p = os.path.join(d, f)
+                with open(p) as fh:
+                    tree = T().visit(_ast.parse(fh.read()))
+                _ast.fix_missing_locations(tree)
+                with open(p, "w") as fh:
+                    fh.write(_ast.unparse(tree) + "\n")
+
+
+GLOBAL_VARIANTS = {
+    "global-benign-reformat": _global_reformat,
+    "global-benign-shuffle-methods-noop": _global_shuffle,
+}
+
+
 def apply_edit(root: str, v: dict) -> bool:
+    if v.get("name") in GLOBAL_VARIANTS:
+        GLOBAL_VARIANTS[v["name"]](root)
+        return True
     edits = v.get("edits") or [v]
     for e in edits:
         path = os.path.join(root, e["file"])
@@ -143,6 +198,8 @@ def _run_one(args):
 
 
 def _load_variant(prop: str, name: str) -> dict:
+    if name in GLOBAL_VARIANTS:
+        return {"name": name, "kind": "benign", "file": "synrbl/__init__.py", "edits": [{"file": "synrbl/__init__.py"}]}
     mod = importlib.import_module("synlint.variants.%s" % prop.lower())
     for v in mod.VARIANTS:
         if v["name"] == name:
@@ -155,7 +212,7 @@ def run_variants(prop: str, repo: str, seed: int, jobs: int = 16) -> dict:
         mod = importlib.import_module("synlint.variants.%s" % prop.lower())
     except ModuleNotFoundError:
         return {"armed_ok": 0, "benign_ok": 0, "failures": ["no variant corpus for %s" % prop], "variants": []}
-    variants = list(mod.VARIANTS)
+    variants = list(mod.VARIANTS) + [{"name": n, "kind": "benign", "file": "synrbl/__init__.py"} for n in GLOBAL_VARIANTS]
     rnd = random.Random(seed)
     rnd.shuffle(variants)
     base, rc, tail = _findings(prop, repo)
